@@ -82,6 +82,13 @@ PROPS = {
         assumptions=["views are records over one shared heap, as `subFS := *vfs` copies them"],
         not_yet_proved=["sub_sim (a view behaves as the parent on prefixed paths)", "sub_confined in the graph sense (Desc of the view root)"],
     ),
+    "C14": dict(
+        props_files=["Avfs/Props/C14.lean"],
+        parts=[dict(name="memfs-enum"), dict(name="kernel-enum")],
+        trusted=MODEL_TRUST + ["oracle: filepath.Glob, filepath.WalkDir, os.ReadDir through OsFS in a chroot-ed child on tmpfs; callbacks return SkipDir / SkipAll / an error at generated visit indexes"],
+        assumptions=["MemFS only (the helpers are generic functions of vfs.go; other file systems run them over their own primitives)", "Linux pattern syntax"],
+        not_yet_proved=["walk_spec (visited sequence = preorder of the tree cut by the actions) beyond the flat case", "glob_spec (set-level characterisation of the matches)"],
+    ),
     "C17": dict(
         props_files=["Avfs/Props/C17.lean"],
         parts=[dict(name="ostype", tags="verif,avfs_setostype"), dict(name="ostype")],
